@@ -182,3 +182,21 @@ check("C12",
       "(openbabel stubbed for the import)",
       "TLA+ spec model-checked with TLC; spec->code execution of enumerated cases; batched TLC trace validation of real calls",
       "DESIGN.md 4/C12", modules=("Join", "MCJoin", "JoinTrace"))
+
+check("C07",
+      "TLC exhausts Mol2Text.tla: a reference model of molli's mol2 writer/reader (typing tables transcribed from "
+      "Atom.get/set_mol2_type and MOL2_BOND_TYPE_MAP) satisfies every clause of the write/read/write/read contract for every "
+      "Element x AtomType x AtomGeom triple (44,982, enums read from the code), every bond type and every bounded structure "
+      "(<=3 atoms, <=3 bonds, <=3 conformers, Molecule/Structure/ConformerEnsemble); eleven named deviations must each violate "
+      "their clause.  On the real code the typing chain get->set->get is recorded for every triple and bond type, and "
+      "TLC-generated objects (random walks of the spec's build actions; 669 quick / ~17,000 thorough, plus the bundled mol2 "
+      "files) are written, read by loads_mol2 and loads_all_mol2 / ConformerEnsemble.loads_mol2, written and read again; every "
+      "recorded step is validated by TLC against Mol2TextTrace, which accepts a step only if name, atom order, elements, "
+      "non-empty labels, coordinates (1e-6 A), charges (1e-3 e), bonds with endpoints and expressible types, conformer "
+      "count/order, acceptance of every emitted token, text fixed point and read stability all hold.",
+      "typing exhaustive on model and code; structures exhaustive on the model within the bounds and sampled on the code; scope: "
+      "whitespace-free labels, one-line names, finite |x| < 1e5 A, one bond per pair, >=1 conformer; bond endpoints compared as "
+      "an unordered pair; '-0.000' equals '0.000'; trusted: TLC, the Json module, the harness's mol2 tokenizer",
+      "TLA+ spec (Mol2Text) model-checked with TLC incl. exhaustive typing table; TLC-generated inputs; batched TLC trace "
+      "validation of real dumps/loads executions; built-in trace-mutation self-test",
+      "DESIGN.md 4/C07", modules=("Mol2Text", "MCMol2Text", "Mol2TextTrace"))
